@@ -164,9 +164,12 @@ class _Ctx:
 
 
 class CFG:
-    def __init__(self, func: FuncInfo, prog: Optional[Program] = None, exc_edges: bool = True):
+    def __init__(self, func: FuncInfo, prog: Optional[Program] = None, exc_edges: bool = True, unguarded_exc: bool = False):
         self.func = func
         self.prog = prog
+        # unguarded_exc: statements outside any try also get an exception edge (to the function's raise exit), so that
+        # "X is attempted on every path, exceptional ones included" is also checked for exceptions nothing in the function catches
+        self.unguarded_exc = unguarded_exc
         self.exc = ExcTypes(prog, func.module)
         self.nodes: List[Node] = []
         self.exc_edges = exc_edges
@@ -194,7 +197,7 @@ class CFG:
             self.nodes[a].succ.append((label, b))
 
     def _exc(self, n: Node, ctx: _Ctx, what: ast.AST) -> None:
-        if self.exc_edges and ctx.guarded and can_raise(what):
+        if self.exc_edges and (ctx.guarded or self.unguarded_exc) and can_raise(what):
             for t in ctx.on_raise(None):
                 self._edge(n.id, t, 'exc')
 
@@ -546,8 +549,8 @@ class Path:
 _CFG_CACHE: Dict[Tuple[int, bool], CFG] = {}
 
 
-def cfg_of(func: FuncInfo, prog: Optional[Program] = None, exc_edges: bool = True) -> CFG:
-    k = (id(func.node), exc_edges)
+def cfg_of(func: FuncInfo, prog: Optional[Program] = None, exc_edges: bool = True, unguarded_exc: bool = False) -> CFG:
+    k = (id(func.node), exc_edges, unguarded_exc)
     if k not in _CFG_CACHE:
-        _CFG_CACHE[k] = CFG(func, prog, exc_edges)
+        _CFG_CACHE[k] = CFG(func, prog, exc_edges, unguarded_exc)
     return _CFG_CACHE[k]
